@@ -1145,6 +1145,7 @@ package psatoken
 //@ bounded[C02] strict-signature : ES256 and ES384 tokens with the signature (r, s) replaced by the different bytes (r, n-s) :: boundedStrictSignature()
 //@ bounded[C02,C03] tamper : 5 pairs of ES256 tokens over the valid claims-sets: every single-bit flip, every truncation, payload / signature / protected-header splices between two tokens, arbitrary signature bytes, the other key; thorough tier: 48 ES256, 4 ES384, 4 ES512, 4 EdDSA and 2 PS256 token pairs :: boundedTamper()
 //@ bounded[C20] envelope : envelopes from an independent CBOR writer: tags 0..30 and none, array lengths 0..6, each of the four elements replaced by 8 other item types, wrapped / null / array / empty / integer payloads, trailing bytes :: boundedEnvelope()
+//@ bounded[C20] word32-envelope : executed with GOARCH=386 (32-bit int): the envelope audit again, plus 5 envelopes in which one element announces its length or entry count as the 8-byte value 2^32+k :: boundedWord32Envelope()
 //@ bounded[C19,C03] histories : all operation sequences of length <= 4 over {Sign ok, Sign with failing signer, Sign with empty signature, Sign with an unsupported algorithm and a junk signature, ValidateAndSign on invalid claims, ValidateAndSign on whatever is attached, UnmarshalCOSE genuine, UnmarshalCOSE of a correctly signed envelope around undecodable claims, UnmarshalCOSE garbage} on one Evidence (7 380 sequences); thorough tier: length <= 5 (66 429 sequences) :: boundedHistories()
 //@ bounded[C17] race-audit : 16 goroutines x 20 iterations of encode / getters / validate / decode / verify / create / sign on shared and private objects under the race detector, results compared with a sequential run :: raceAudit()
 
